@@ -21,6 +21,7 @@ pub fn scenarios() -> Vec<Scenario> {
         scn!(scenario_claimed_identifier, 2),
         scn!(scenario_signer_checks_own_entry, 3),
         scn!(scenario_identity_commitment, 1),
+        crate::wrap::scn_sign_aggregate(2),
     ]
 }
 
@@ -129,7 +130,8 @@ pub fn scenario_share_rejected_in_other_session<C: Suite>(rng: &mut TestRng, p: 
     }
     let _ = b_nonces;
     let package_b = fc::SigningPackage::<C>::new(commitments_b.clone(), &message_b);
-    if package_b == a.package && pubkeys_b == keys.pubkeys {
+    // (by encoding, not by the library's PartialEq: seeded2/C05_2 breaks the equality of SigningCommitments)
+    if same_encoding(package_b.serialize(), a.package.serialize()) && same_encoding(pubkeys_b.serialize(), keys.pubkeys.serialize()) {
         return skip("variant equals the original session");
     }
 
@@ -362,7 +364,7 @@ pub fn scenario_signer_checks_own_entry<C: Suite>(rng: &mut TestRng, p: &Params,
         }
         _ => {}
     }
-    if cm.get(&me) == Some(&mine_a) {
+    if cm.get(&me).is_some_and(|c| same_encoding(c.serialize(), mine_a.serialize())) {
         return skip("own entry unchanged");
     }
     let package = fc::SigningPackage::<C>::new(cm, &p.message);
